@@ -398,6 +398,17 @@ fn gen_smx(rng: &mut Rng) -> Image {
     let mut name: Vec<u8> = (0..name_len)
         .map(|_| *rng.pick(b"abcdefghijklmnopqrstuvwxyzABCDEFGHIJKLMNOPQRSTUVWXYZ0123456789_-()"))
         .collect();
+    if rng.chance(1, 5) && name_len >= 4 {
+        // bytes above 0x7f as LFS writes them in its default (Latin-1) code page, including byte
+        // pairs that happen to be well-formed UTF-8: a canonical file is reproduced byte for byte
+        // whatever its track name looks like under another encoding
+        for _ in 0..rng.usize(1, 3) {
+            let at = rng.usize(0, name_len - 2);
+            let pair: [u8; 2] = *rng.pick(&[[0xC3, 0x9F], [0xC3, 0xA9], [0xE9, 0x20], [0xDF, 0x65], [0xC2, 0xB2], [0xFC, 0xF6]]);
+            name[at] = pair[0];
+            name[at + 1] = pair[1];
+        }
+    }
     name.resize(32, 0);
     b.extend_from_slice(&name);
     for _ in 0..3 {
@@ -1196,7 +1207,7 @@ impl Prop for C17 {
             "the library has no durability protocol of its own (no fsync, no rename): 'crash' means the writer dies after k accepted bytes and the survivor is whatever those bytes leave on the platter, optionally extended by zeros or stale data".into(),
             "allocation failure is not injected (it aborts the process in Rust); only allocation size is bounded".into(),
             "the pure round-trip half of the statement is covered only as the fault-free baseline of this workload".into(),
-            "generated SMX track names are ASCII without '^' so that codepage behaviour (C10/C12, not claimed) cannot influence a verdict".into(),
+            "generated SMX track names are ASCII without '^', in a fifth of the cases with a few fixed Latin-1 byte pairs (some of them well-formed UTF-8) that the unchanged code reproduces byte for byte; codepage behaviour beyond those bytes (C10/C12, not claimed) cannot influence a verdict".into(),
         ]
     }
     fn components(&self) -> Value {
@@ -1261,6 +1272,38 @@ fn real_file(sc: &FileSc) -> Result<(), Option<String>> {
             (Ok(_), Ok(_)) => return Err(Some(format!("{} parsed a different structure than the in-memory parse of the same {} bytes", name, sc.image.len()))),
             (Ok(_), Err(e)) => return Err(Some(format!("{} rejected a file the in-memory parse accepts: {}", name, short_err(e)))),
             (Err(()), Ok(_)) => return Err(Some(format!("{} accepted a file the in-memory parse rejects", name))),
+        }
+    }
+    // the same path again after the file was replaced by another one of the same length and
+    // with the same modification time (cp -p, rsync -t, two writes within one clock tick): what
+    // is loaded must be what is in the file now
+    if !sc.image.is_empty() {
+        let mtime = std::fs::metadata(&path).and_then(|m| m.modified()).ok();
+        let mut other = sc.image.clone();
+        let last = other.len() - 1;
+        other[last] ^= 0xFF;
+        std::fs::write(&path, &other).map_err(|_| None)?;
+        if let Some(t) = mtime {
+            if let Ok(f) = std::fs::OpenOptions::new().write(true).open(&path) {
+                let _ = f.set_modified(t);
+            }
+        }
+        let mem2 = parse(sc.kind, &mut Cursor::new(other.clone()));
+        let want2: Result<Vec<u8>, ()> = mem2.as_ref().map(reser).map_err(|_| ());
+        let again: Result<Vec<u8>, String> = match sc.kind {
+            Kind::Pth => Pth::from_pathbuf(&path).map(|p| reser(&Parsed::Pth(p))).map_err(|e| e.to_string()),
+            Kind::Smx => Smx::from_pathbuf(&path).map(|p| reser(&Parsed::Smx(p))).map_err(|e| e.to_string()),
+        };
+        match (&want2, &again) {
+            (Ok(a), Ok(b)) if a == b => {},
+            (Err(()), Err(_)) => {},
+            _ => {
+                return Err(Some(format!(
+                    "from_pathbuf of the same path after the file was replaced (same length, same mtime) does not reflect the new content: in-memory parse of the new bytes {}, from_pathbuf {}",
+                    if want2.is_ok() { "succeeds" } else { "fails" },
+                    match &again { Ok(b) if Some(b) == want.as_ref().ok() => "returned the OLD file's structure", Ok(_) => "returned something else", Err(_) => "failed" }
+                )))
+            },
         }
     }
     // a missing path is an error, not a panic and not an empty structure
